@@ -80,7 +80,8 @@ theorem connectNext_src {s s' : St} {outs : List Out} (hs : Src S s) (h : connec
           simp at hc'; subst hc'
           exact hc
         · intro b' hb'
-          simp [delivered] at hb'; subst hb'
+          simp [delivered] at hb'
+          rw [hb']
           exact hc b (List.mem_of_getElem? hb)
 
 private theorem failTask_procEq {s s' : St} {t : Task} (h : failTask s t = .ok s') : ProcEq s s' := by
@@ -277,7 +278,7 @@ theorem hrecvAdd_spec (reqCnt : Nat) : ∀ (hs : List (Nat × Bool)) (got : List
     ((hrecvAdd reqCnt got hs).2 = none → (hrecvAdd reqCnt got hs).1 = got ++ hs.map (·.1) ∧ ∀ x, x ∈ hs → x.2 = true) := by
   intro hs
   induction hs with
-  | nil => intro got hg; simp [hrecvAdd, hg]; exact ⟨0, by simp⟩
+  | nil => intro got hg; simp [hrecvAdd, hg]
   | cons x r ih =>
     intro got hg
     obtain ⟨h, ok⟩ := x
@@ -414,5 +415,74 @@ theorem hfeed_spec : ∀ (parts : List HPart) (r : HRecv), HInv r →
         rw [hnw] at ih2 ⊢
         simp [hw] at ih2 ⊢
         simp [hanswers, ih2]
+
+/-! ## Anchors are strictly descending -/
+
+theorem anchorsFrom_le' : ∀ fuel no a, a ∈ anchorsFrom fuel no → a ≤ no := by
+  intro fuel
+  induction fuel with
+  | zero => intro no a h; simp [anchorsFrom] at h
+  | succ n ih =>
+    intro no a h
+    simp only [anchorsFrom] at h
+    simp at h
+    rcases h with rfl | ⟨_, h⟩
+    · omega
+    · have := ih _ a h
+      split at this <;> omega
+
+theorem anchorsFrom_pairwise : ∀ fuel no, (anchorsFrom fuel no).Pairwise (· > ·) := by
+  intro fuel
+  induction fuel with
+  | zero => intro no; simp [anchorsFrom]
+  | succ n ih =>
+    intro no
+    simp only [anchorsFrom]
+    rw [List.pairwise_cons]
+    constructor
+    · intro a ha
+      split at ha
+      · simp at ha
+      · rename_i hne
+        have := anchorsFrom_le' n _ a ha
+        simp only [skip] at this
+        by_cases h16 : no < 16
+        · simp [h16] at this; omega
+        · simp [h16] at this; omega
+    · split
+      · simp
+      · exact ih _
+
+theorem anchors_pairwise (best : Nat) : (anchors best).Pairwise (· > ·) := anchorsFrom_pairwise _ _
+
+theorem anchors_le (best a : Nat) (h : a ∈ anchors best) : a ≤ best := anchorsFrom_le' _ _ a h
+
+theorem anchors_ne_nil (best : Nat) : anchors best ≠ [] := by
+  unfold anchors maxAnchors
+  rw [show (32 : Nat) = 31 + 1 from rfl, anchorsFrom]
+  exact List.cons_ne_nil _ _
+
+theorem lastAnchor_mem (best : Nat) : lastAnchorOf best ∈ anchors best := by
+  unfold lastAnchorOf
+  cases hl : (anchors best).getLast? with
+  | none =>
+    have : anchors best = [] := by simpa using hl
+    exact absurd this (anchors_ne_nil best)
+  | some x => simpa using List.mem_of_getLast? hl
+
+theorem findAncestor_eq_none (store main : Nat → Option Nat) : ∀ (hs : List Nat),
+    (∀ x, x ∈ hs → ∀ m, store x = some m → main m ≠ some x) → findAncestor store main hs = none := by
+  intro hs
+  induction hs with
+  | nil => intro _; rfl
+  | cons y r ih =>
+    intro h
+    simp only [findAncestor]
+    split
+    · exact ih (fun x hx => h x (by simp [hx]))
+    · rename_i m hst
+      have := h y (by simp) m hst
+      simp [this]
+      exact ih (fun x hx => h x (by simp [hx]))
 
 end Aergo.Sync
